@@ -42,7 +42,7 @@ impl StdioImpl for S {
 }
 impl IoImpl<Stdio> for Cap { fn make(&self) -> Stdio { Stdio::new(Box::new(S { o: W(self.0.clone(), false), e: W(self.0.clone(), true), i: io::empty() })) } }
 
-fn norm(s: &str) -> String {
+fn norm(s: &str) -> String { if std::env::var("NONORM").is_ok() { return s.to_string(); }
   // strip hex addresses
   let mut out = String::new(); let b = s.as_bytes(); let mut i = 0;
   while i < b.len() { if b[i] == b'0' && i + 1 < b.len() && b[i+1] == b'x' { out.push_str("0xX"); i += 2; while i < b.len() && (b[i] as char).is_ascii_hexdigit() { i += 1; } } else { out.push(b[i] as char); i += 1; } }
@@ -75,6 +75,8 @@ fn main() {
   let src = std::fs::read_to_string(&path).unwrap();
   std::panic::set_hook(Box::new(|_| {}));
   let (base, n, _) = run(&path, &src, 1, 0, 0, 0);
+  if std::env::var("CACHEOFF").is_ok() { laythe_vm::verif::VERIF_BYPASS.store(true, Ordering::Relaxed); let (o, _, _) = run(&path, &src, 1, 0, 0, 0); println!("DONE {} cacheoff same={}", args[1], o == base); if o != base { println!("--- base\n{}\n--- off\n{}", base, o); } return; }
+  if std::env::var("EVERYNP").is_ok() { for kind in [2u8, 0u8] { let (o, _, c) = run(&path, &src, 2, 0, 0, kind); println!("every kind={kind} collections={c} same={}\n{}", o == base, o); } return; }
   if let Ok(o) = std::env::var("ONLY") { let v: Vec<u64> = o.split(',').map(|x| x.parse().unwrap()).collect(); POISON.store(true, Ordering::Relaxed); let (o, _, _) = run(&path, &src, 3, v[0], u64::MAX, v[1] as u8); println!("{}", o); return; }
   POISON.store(true, Ordering::Relaxed);
   let mut runs = 0u64; let mut bad = 0u64;
